@@ -218,6 +218,25 @@ def straightModel (o : Opts) (m : ModelP) : Bool :=
   && m.graph.outputs.all (fun x => !m.graph.inputs.contains x) && m.graph.outputs.eraseDups.length == m.graph.outputs.length
 
 
+/-! ## initializers -/
+
+/-- the `Constant` node `_translate_graph_body` builds for an initializer that is neither skipped nor inlined -/
+def initNode (i : String × Nat × Nat × List Nat × Bool × String) : Node :=
+  .mk "Constant" "" "" [] [i.1] [("value", .tensor i.2.2.1 i.2.2.2.1 i.2.2.2.2.1 i.2.2.2.2.2)]
+
+/-- the graph with its initializers turned into leading `Constant` nodes.  This is also what an initializer
+    *means* here: it denotes whatever the operator semantics gives the `Constant` node holding its tensor. -/
+def initsAsNodes (g : Graph) : Graph :=
+  .mk g.inputs g.outputs [] g.nSparse (g.inits.map initNode ++ g.nodes)
+
+def ModelP.unfoldInits (m : ModelP) : ModelP := { m with graph := initsAsNodes m.graph }
+
+/-- meaning of a straight-line graph with initializers -/
+def evalGraphI {V} (S : Sem V) (g : Graph) (args : List V) : Option (List V) := evalGraph S (initsAsNodes g) args
+
+/-- no initializer is skipped (`skip_initializers` only skips tensors of more than 4 elements) -/
+def noneSkipped (o : Opts) (g : Graph) : Bool := g.inits.all (fun i => !(o.skipInit && i.2.1 > 4))
+
 /-! ## operands that are inlined literals: how Python reads `a sym b` (C13-POW-NEG) -/
 
 /-- an operand as `_translate_node` prints it: a name, or an inlined scalar literal (`str(value)`: an optional
